@@ -39,7 +39,8 @@ def specs():
     S.append(Spec("OPA", "single", lambda k, **kw: sg.OPA(n_modes=k, tau_max=2, n_pca_modes=max(k, 2) + 1, **kw), ordered=True, transform=False, inverse=False))
     for nm, cls, cx in (("CPCCA", cr.CPCCA, False), ("MCA", cr.MCA, False), ("CCA", cr.CCA, False), ("RDA", cr.RDA, False),
                         ("ComplexCPCCA", cr.ComplexCPCCA, True), ("ComplexMCA", cr.ComplexMCA, True),
-                        ("HilbertMCA", cr.HilbertMCA, False)):
+                        ("HilbertMCA", cr.HilbertMCA, False), ("HilbertCPCCA", cr.HilbertCPCCA, False), ("HilbertCCA", cr.HilbertCCA, False),
+                        ("HilbertRDA", cr.HilbertRDA, False)):
         S.append(Spec(nm, "cross", (lambda cls_: (lambda k, **kw: cls_(n_modes=k, **kw)))(cls), cplx=cx,
                       ordered=nm.startswith("Hilbert"), transform=not nm.startswith("Hilbert")))
     return {s.name: s for s in S}
